@@ -35,7 +35,7 @@ func init() {
 		Assumptions: []string{
 			"the interleaved framing itself ('$', channel, length) stays intact: a corrupted length cannot be resynchronised by any receiver and is outside 'malformed media input'",
 		},
-		RequiredProbes: []string{"c07.fault-injected", "c07.liveness-checked", "c07.malformed-input-comes-first", "c07.parameter-sets-in-band-only", "c07.ts-keyframe-parameter-sets-checked"},
+		RequiredProbes: []string{"c07.fault-injected", "c07.liveness-checked", "c07.malformed-input-comes-first", "c07.parameter-sets-in-band-only", "c07.ts-keyframe-parameter-sets-checked", "c07.h265-source"},
 	})
 	Register(&Def{
 		Prop: "C07", Name: "camera-garbage", Level: "fault_enumeration",
@@ -53,7 +53,7 @@ func init() {
 		Assumptions: []string{
 			"the interleaved framing itself ('$', channel, length) stays intact",
 		},
-		RequiredProbes: []string{"c07.fault-injected", "c07.liveness-checked", "c07.malformed-input-comes-first", "c07.parameter-sets-in-band-only", "c07.camera-hostile-sdp-survived"},
+		RequiredProbes: []string{"c07.fault-injected", "c07.liveness-checked", "c07.malformed-input-comes-first", "c07.parameter-sets-in-band-only", "c07.camera-hostile-sdp-survived", "c07.h265-source"},
 	})
 }
 
@@ -124,6 +124,14 @@ func buildC07src(tier string, fromCamera bool) sim.Scenario {
 			}[tp.Choose(6)]
 			w.Fault("hostile-sdp")
 			w.Probe("c07.fault-injected")
+		}
+		// H.265 source (no HLS for it in ipchub: relay and FLV are judged): its own cache classifier, depacketizer and FLV packetizer
+		hevc := !hostileSDP && !noSprop && tp.OneIn(3)
+		cdc := oracle.H264
+		if hevc {
+			cdc = oracle.H265
+			sdp = sdpH265AAC
+			w.Probe("c07.h265-source")
 		}
 		var src c07Source
 		var stream *media.Stream
@@ -245,10 +253,14 @@ func buildC07src(tier string, fromCamera bool) sim.Scenario {
 				sps, _ = base64.StdEncoding.DecodeString("Z2QAH6zZQFAFuhAAAAMAEAAAAwPI8YMZYA==")
 				pps, _ = base64.StdEncoding.DecodeString("aO+8sA==")
 			}
-			aus = append(aus, oracle.AU{NALs: [][]byte{sps, pps, oracle.MakeNAL(oracle.H264, 5, id+2, 300+tp.Choose(2500))}, TS: ts})
+			if hevc {
+				aus = append(aus, oracle.AU{NALs: [][]byte{hevcVPS, hevcSPS, hevcPPS, oracle.MakeNAL(oracle.H265, 19, id+2, 300+tp.Choose(2500))}, TS: ts})
+			} else {
+				aus = append(aus, oracle.AU{NALs: [][]byte{sps, pps, oracle.MakeNAL(oracle.H264, 5, id+2, 300+tp.Choose(2500))}, TS: ts})
+			}
 			id += 3
 			for k := 1; k <= 3; k++ {
-				aus = append(aus, oracle.AU{NALs: [][]byte{oracle.MakeNAL(oracle.H264, 1, id, 40+tp.Choose(400))}, TS: ts + uint32(k)*3600})
+				aus = append(aus, oracle.AU{NALs: [][]byte{oracle.MakeNAL(cdc, 1, id, 40+tp.Choose(400))}, TS: ts + uint32(k)*3600})
 				id++
 			}
 			unit := 0
@@ -256,7 +268,7 @@ func buildC07src(tier string, fromCamera bool) sim.Scenario {
 			for _, au := range aus {
 				flat = append(flat, au.NALs...)
 			}
-			for _, pk := range oracle.Pack(oracle.H264, aus, 1400, tp.Choose) {
+			for _, pk := range oracle.Pack(cdc, aus, 1400, tp.Choose) {
 				p := mkRTP(rtp.ChannelVideo, 96, vseq, pk.Timestamp, pk.Marker, pk.Payload)
 				vseq++
 				sp := sentPk{p: p, phase: phase}
@@ -300,11 +312,24 @@ func buildC07src(tier string, fromCamera bool) sim.Scenario {
 				tmplA := mkRTP(rtp.ChannelAudio, 97, aseq, 44100, true, oracle.PackAAC([][]byte{blob(1, 30), blob(2, 40)}))
 				spsFix, _ := base64.StdEncoding.DecodeString("Z2QAH6zZQFAFuhAAAAMAEAAAAwPI8YMZYA==")
 				tmplSPS := mkRTP(rtp.ChannelVideo, 96, vseq, 90000+7200, false, spsFix) // a parameter set as a packet of its own
+				if hevc {
+					tmplV = mkRTP(rtp.ChannelVideo, 96, vseq, 90000+7200, true, oracle.Pack(oracle.H265, []oracle.AU{{NALs: [][]byte{hevcVPS, hevcSPS, hevcPPS, oracle.MakeNAL(oracle.H265, 19, 3, 60)}, TS: 1}}, 1400, func(n int) int {
+						if n == 5 {
+							return 4
+						}
+						return n - 1 // aggregate as much as the packetiser offers
+					})[0].Payload)
+					tmplFU = mkRTP(rtp.ChannelVideo, 96, vseq, 90000+7200, false, oracle.Pack(oracle.H265, []oracle.AU{{NALs: [][]byte{oracle.MakeNAL(oracle.H265, 19, 3, 200)}, TS: 1}}, 80, func(n int) int { return 0 })[0].Payload)
+					tmplSPS = mkRTP(rtp.ChannelVideo, 96, vseq, 90000+7200, false, hevcSPS)
+				}
 				tmpl := []*rtp.Packet{tmplV, tmplFU, tmplA, tmplSPS}[tp.Choose(4)]
 				name := ""
 				switch kind {
-				case 0, 1: // truncation at an offset
+				case 0, 1: // truncation at an offset (half of the time at a structural boundary of the payload: where a length check can be off by one)
 					k := tp.Choose(len(tmpl.Data))
+					if edges := c07Edges(cdc, tmpl); len(edges) > 0 && tp.Bool() {
+						k = edges[tp.Choose(len(edges))]
+					}
 					raw = frame(&rtp.Packet{Channel: tmpl.Channel, Data: tmpl.Data[:k]})
 					name = fmt.Sprintf("truncate@%d/%d", k, len(tmpl.Data))
 				case 2, 3: // byte corruption in the first 24 bytes
@@ -411,7 +436,7 @@ func buildC07src(tier string, fromCamera bool) sim.Scenario {
 		}
 		for i := firstClean; i < len(sent); i++ {
 			for _, n := range sent[i].nals {
-				if t := n[0] & 0x1f; t == 7 || t == 8 {
+				if t := oracle.NalType(cdc, n); (!hevc && (t == 7 || t == 8)) || (hevc && t >= 32 && t <= 34) {
 					continue // parameter sets may travel in the decoder configuration instead of a tag of their own
 				}
 				if !inFlv[string(n)] {
@@ -420,7 +445,7 @@ func buildC07src(tier string, fromCamera bool) sim.Scenario {
 						desc += fmt.Sprintf(" %d/%d/%dB", t.Type, t.PacketType, len(t.Data))
 					}
 					desc += fmt.Sprintf("; stream sps=%dB pps=%dB %dx%d]", len(stream.Video.Sps), len(stream.Video.Pps), stream.Video.Width, stream.Video.Height)
-					w.Fail("C07/flv-stopped", "a NAL unit (type %d, %d bytes) sent after the malformed input %v never reached the FLV viewer: conversion stopped%s", n[0]&0x1f, len(n), faultNames, desc)
+					w.Fail("C07/flv-stopped", "a NAL unit (type %d, %d bytes, hevc=%v) sent after the malformed input %v never reached the FLV viewer: conversion stopped%s", oracle.NalType(cdc, n), len(n), hevc, faultNames, desc)
 					return
 				}
 			}
@@ -431,76 +456,82 @@ func buildC07src(tier string, fromCamera bool) sim.Scenario {
 				}
 			}
 		}
-		// (d) HLS
-		hl := stream.Hlsable()
-		if hl == nil {
-			w.Fail("C07/harness", "no HLS on the stream")
-			return
-		}
-		body, err := hl.M3u8("")
-		if err != nil {
-			why := ""
-			if tsCorrupted {
-				why = " [one media packet carried a corrupted RTP timestamp field: a timestamp discontinuity]"
+		// (d) HLS (H.264 only: ipchub has no HLS for H.265)
+		hlsOK := func() bool {
+			hl := stream.Hlsable()
+			if hl == nil {
+				w.Fail("C07/harness", "no HLS on the stream")
+				return false
 			}
-			w.Fail("C07/hls-stopped", "after four clean GOPs 6 s apart the playlist is still not available: %v (faults %v)%s", err, faultNames, why)
-			return
-		}
-		pl, err := oracle.ParseM3U8(string(body))
-		if err != nil {
-			w.Fail("C07/hls-broken", "%v", err)
-			return
-		}
-		found := false
-		for _, e := range pl.Entries {
-			mm := c10URIp.FindStringSubmatch(e.URI)
-			if mm == nil {
-				continue
-			}
-			var seq int
-			fmt.Sscan(mm[1], &seq)
-			rd, _, err := hl.Segment(seq)
+			body, err := hl.M3u8("")
 			if err != nil {
-				w.Fail("C07/hls-broken", "listed segment %d does not resolve", seq)
-				return
+				why := ""
+				if tsCorrupted {
+					why = " [one media packet carried a corrupted RTP timestamp field: a timestamp discontinuity]"
+				}
+				w.Fail("C07/hls-stopped", "after four clean GOPs 6 s apart the playlist is still not available: %v (faults %v)%s", err, faultNames, why)
+				return false
 			}
-			var bb bytes.Buffer
-			bb.ReadFrom(rd)
-			ts, err := oracle.ParseTS(bb.Bytes())
+			pl, err := oracle.ParseM3U8(string(body))
 			if err != nil {
-				w.Fail("C07/hls-broken", "segment %d: %v", seq, err)
-				return
+				w.Fail("C07/hls-broken", "%v", err)
+				return false
 			}
-			spsFix, _ := base64.StdEncoding.DecodeString("Z2QAH6zZQFAFuhAAAAMAEAAAAwPI8YMZYA==")
-			ppsFix, _ := base64.StdEncoding.DecodeString("aO+8sA==")
-			for _, pes := range ts.PES {
-				for i := firstClean; i < len(sent); i++ {
-					for _, n := range sent[i].nals {
-						if len(n) > 20 && bytes.Contains(pes.ES, n) {
-							found = true
-							// a key frame sent after the malformed input is decodable on its own: the stream's parameter
-							// sets (the well-formed ones: SDP or in-band) come in front of it
-							// (only judged when the SDP names the parameter sets: in-band-only sets can be displaced by an intact
-							// parameter-set unit inside a malformed packet, which the server cannot tell from a genuine one)
-							if n[0]&0x1f == 5 && !noSprop {
-								at := bytes.Index(pes.ES, n)
-								if !bytes.Contains(pes.ES[:at], spsFix) || !bytes.Contains(pes.ES[:at], ppsFix) {
-									w.Fail("C07/hls-keyframe-without-parameter-sets", "segment %d: a key frame sent after the malformed input %v is not preceded by the stream's SPS and PPS in its access unit (in-band only=%v)", seq, faultNames, noSprop)
-									return
+			found := false
+			for _, e := range pl.Entries {
+				mm := c10URIp.FindStringSubmatch(e.URI)
+				if mm == nil {
+					continue
+				}
+				var seq int
+				fmt.Sscan(mm[1], &seq)
+				rd, _, err := hl.Segment(seq)
+				if err != nil {
+					w.Fail("C07/hls-broken", "listed segment %d does not resolve", seq)
+					return false
+				}
+				var bb bytes.Buffer
+				bb.ReadFrom(rd)
+				ts, err := oracle.ParseTS(bb.Bytes())
+				if err != nil {
+					w.Fail("C07/hls-broken", "segment %d: %v", seq, err)
+					return false
+				}
+				spsFix, _ := base64.StdEncoding.DecodeString("Z2QAH6zZQFAFuhAAAAMAEAAAAwPI8YMZYA==")
+				ppsFix, _ := base64.StdEncoding.DecodeString("aO+8sA==")
+				for _, pes := range ts.PES {
+					for i := firstClean; i < len(sent); i++ {
+						for _, n := range sent[i].nals {
+							if len(n) > 20 && bytes.Contains(pes.ES, n) {
+								found = true
+								// a key frame sent after the malformed input is decodable on its own: the stream's parameter
+								// sets (the well-formed ones: SDP or in-band) come in front of it
+								// (only judged when the SDP names the parameter sets: in-band-only sets can be displaced by an intact
+								// parameter-set unit inside a malformed packet, which the server cannot tell from a genuine one)
+								if n[0]&0x1f == 5 && !noSprop {
+									at := bytes.Index(pes.ES, n)
+									if !bytes.Contains(pes.ES[:at], spsFix) || !bytes.Contains(pes.ES[:at], ppsFix) {
+										w.Fail("C07/hls-keyframe-without-parameter-sets", "segment %d: a key frame sent after the malformed input %v is not preceded by the stream's SPS and PPS in its access unit (in-band only=%v)", seq, faultNames, noSprop)
+										return false
+									}
+									w.Probe("c07.ts-keyframe-parameter-sets-checked")
 								}
-								w.Probe("c07.ts-keyframe-parameter-sets-checked")
 							}
 						}
 					}
 				}
 			}
-		}
-		if !found {
-			why := ""
-			if tsCorrupted {
-				why = " [one media packet carried a corrupted RTP timestamp field: a timestamp discontinuity]"
+			if !found {
+				why := ""
+				if tsCorrupted {
+					why = " [one media packet carried a corrupted RTP timestamp field: a timestamp discontinuity]"
+				}
+				w.Fail("C07/hls-stopped", "none of the listed segments carries a frame sent after the malformed input (faults %v)%s", faultNames, why)
+				return false
 			}
-			w.Fail("C07/hls-stopped", "none of the listed segments carries a frame sent after the malformed input (faults %v)%s", faultNames, why)
+			return true
+		}
+		if !hevc && !hlsOK() {
 			return
 		}
 		// (e) the other stream and session
@@ -535,4 +566,43 @@ func minInt(a, b int) int {
 		return a
 	}
 	return b
+}
+
+// c07Edges lists the offsets inside an RTP packet at which the structure of its payload changes: the RTP header end, the
+// payload header bytes, and for aggregation packets every size field (start, middle, end) and the first bytes of every unit.
+func c07Edges(cdc oracle.Codec, p *rtp.Packet) []int {
+	n := len(p.Data)
+	var e []int
+	add := func(k int) {
+		if k >= 0 && k < n {
+			e = append(e, k)
+		}
+	}
+	for k := 12; k <= 17; k++ {
+		add(k)
+	}
+	add(n - 1)
+	add(n - 2)
+	if p.Channel != rtp.ChannelVideo || n < 14 {
+		return e
+	}
+	hdr, agg := 1, false
+	if cdc == oracle.H265 {
+		hdr = 2
+		agg = (p.Data[12]>>1)&0x3f == 48
+	} else {
+		agg = p.Data[12]&0x1f == 24
+	}
+	if agg {
+		off := 12 + hdr
+		for off+2 <= n {
+			size := int(p.Data[off])<<8 | int(p.Data[off+1])
+			for d := 0; d <= 2+hdr; d++ {
+				add(off + d)
+			}
+			off += 2 + size
+			add(off - 1)
+		}
+	}
+	return e
 }
